@@ -70,6 +70,10 @@ class StereoMolGraph(MolGraph):
     def __eq__(self, other: object) -> bool:
         if not isinstance(other, self.__class__):
             return NotImplemented
+        if len(self) != len(other):
+            return False
+        if len(self) == 0:
+            return True
 
         o_labels = label_hash(other, atom_labels=("atom_type",))
         s_labels = label_hash(self, atom_labels=("atom_type",))
